@@ -441,6 +441,12 @@ class Multiplexer(wiring.Component):
                     chunk = Multiplexer._Shadow.Chunk(self, chunk_offset, chunk_registers)
                     self._chunks[chunk_offset] = chunk
             else:
+                # Once every address bit of every register takes part in the decoding, doubling
+                # the shadow size again cannot separate the registers that still share a chunk.
+                if self._size >= 2 ** ceil_log2(max(reg_range.stop for reg_range in self._ranges)):
+                    raise ValueError(f"Shadow register {self.name!r} cannot be balanced: CSR "
+                                     f"registers that are not naturally aligned share chunks "
+                                     f"beyond the limit of {self.overlaps} overlaps")
                 self._size *= 2
                 self.prepare()
 
